@@ -4,7 +4,7 @@ from .. import harness, gen, pyref
 from ..curve import *
 from .. import surface
 
-VO = ['Props/C02.vo']
+VO = ['Props/C02.vo', 'Tie/SqrtArk.vo']      # decode/encode call the table-driven square root: its tie to the source is part of the obligation
 FILES = ['Props/C02.v', 'Proofs/Codec.v', 'Proofs/BytesLemmas.v', 'Proofs/ByteLevel.v', 'Proofs/Final.v', 'Tie/Curve.v', 'Proofs/Instance.v', 'Proofs/SqrtTS.v', 'Proofs/SqrtSarkar.v']
 ENTRY32 = {'ark': ['el.dec', 'el.dec.decompress', 'el.dec.tf_enc', 'el.dec.tf_encref', 'el.dec.tf_arr', 'el.dec.tf_slice', 'el.dec.enc_tf_slice', 'el.deser', 'af.deser'],
            'min': ['el.dec', 'el.dec.tf_enc', 'el.dec.tf_encref', 'el.dec.tf_arr', 'el.dec.tf_slice', 'el.dec.enc_tf_slice']}
